@@ -18,6 +18,15 @@
 //!          MgfReader::parse on the same bytes. reply classes of the file part: ok … | err:utf8 (io error
 //!          InvalidData from read_to_string) | err:io | err:other | panic
 //!
+//!   mgfbig fid style crlf nblocks pad a b [k h:pepmass-token…] [h:header-line…] [m [h:template-line…]…] [table] [codepoints]
+//!          ->  file ok n total rec… | file err:… | file panic      followed by      direct ok n total
+//!          LARGE files through the same file route, described by a small request: the text is (every line ended by LF,
+//!          or CRLF when crlf=1) the header lines, the comment line `#` + pad×`x`, then for i in 0..nblocks the block
+//!          `BEGIN IONS`, the lines of template[((i*a+b) % 1000003) % m] with byte 0x01 replaced by the decimal i and
+//!          byte 0x02 by pepmass-token[i % k], `END IONS`, and an empty line. Both sides expand the same description.
+//!          rec := fid h:id np (np × opt charge) window-of-first-precursor fnv1a64(canonical spectrum text);
+//!          total := fnv1a64 of the recs' digests joined by one space. `direct` = MgfReader::parse on the same bytes.
+//!
 //!   spectrum := fid level h:id [p (u32 mz, opt u32 intensity, opt charge, window, sref?, opt u32 iim)…]
 //!               repr u32 rt u32 iit u32 tic [n u32 mz…] [n u32 intensity…] mobility?
 //!   window   := 0 | 1 da|ppm|pct u32 lo u32 hi
@@ -28,7 +37,7 @@ use sage_cloudpath::mgf::MgfReader;
 use sage_core::mass::Tolerance;
 use sage_core::spectrum::{RawSpectrum, Representation};
 
-pub const OPS: &[&str] = &["mgf", "mgfraw", "mgffile"];
+pub const OPS: &[&str] = &["mgf", "mgfraw", "mgffile", "mgfbig"];
 pub const INFO: Info = Info {
     rule: "mgf: structured MGF documents (header CHARGE/TOL/TOLU present/absent/repeated, junk and comment \
            lines (# ; !), blank lines, 0-5 blocks with fields in random order, per-block CHARGE/TOL/TOLU \
@@ -44,7 +53,14 @@ pub const INFO: Info = Info {
            witnesses) written to a temp file under each of the five name styles .mgf .MGF .mgf.gz .MGF.GZ .mgf.Gz (all five \
            are read correctly by the unchanged code: FileFormat lower-cases the path, the gzip heuristic lower-cases the \
            extension), gzip-compressed where the name says so, read back through util::read_spectra with file ids 0..999 \
-           and compared with the direct parse. non-trivial = document contains at least one \
+           and compared with the direct parse. mgfbig: LARGE files through the same file route, described by a small request expanded identically on both sides \
+           (header CHARGE/TOL/TOLU; 5-11 block templates, most without CHARGE/TOL/TOLU of their own, own-CHARGE / own-TOL-TOLU / \
+           two-PEPMASS / non-ASCII-title / indented / no-PEPMASS (rejected) templates sprinkled in by a pseudo-random schedule; \
+           index-dependent title, pepmass cycling through 1-11 tokens; ~35-45 peaks per block): 24 KiB and 150 KiB files with \
+           the 8 KiB / 16 KiB / 64 KiB / 128 KiB offsets and 1.1 MiB (quick: 2; thorough: 8), 2.5 MiB (6), 5 MiB (4) files \
+           (2,000-8,000 blocks) with the 1 / 2 / 4 MiB offsets aligned, via a padding comment line, inside or just before \
+           END IONS / BEGIN IONS, inside a PEPMASS line, inside a multi-byte UTF-8 character, or between CR and LF; LF and \
+           CRLF; plain and gzip under all five name styles; file ids 0-999. non-trivial = document contains at least one \
            BEGIN IONS and one END IONS line; distinct by request",
     serial: false,
 };
@@ -135,8 +151,8 @@ fn direct(fid: usize, bytes: Vec<u8>) -> String {
 pub const STYLES: &[&str] = &[".mgf", ".MGF", ".mgf.gz", ".MGF.GZ", ".mgf.Gz"];
 static FILE_COUNTER: std::sync::atomic::AtomicUsize = std::sync::atomic::AtomicUsize::new(0);
 
-/// the route `sage` itself takes: path -> `read_spectra`
-fn file_route(fid: usize, style: usize, bytes: &[u8]) -> String {
+/// the route `sage` itself takes: path -> `read_spectra`; Err = reply class
+fn file_route_raw(fid: usize, style: usize, bytes: &[u8]) -> Result<Vec<RawSpectrum>, String> {
     use std::io::Write;
     let ext = STYLES[style % STYLES.len()];
     let k = FILE_COUNTER.fetch_add(1, std::sync::atomic::Ordering::Relaxed);
@@ -155,17 +171,208 @@ fn file_route(fid: usize, style: usize, bytes: &[u8]) -> String {
     });
     let _ = std::fs::remove_file(&path);
     match r {
-        Err(_) => "panic".into(),
-        Ok(Ok(spectra)) => render_ok(&spectra),
-        Ok(Err(sage_cloudpath::Error::IO(e))) if e.kind() == std::io::ErrorKind::InvalidData => "err:utf8".into(),
-        Ok(Err(sage_cloudpath::Error::IO(_))) => "err:io".into(),
-        Ok(Err(sage_cloudpath::Error::MGF(_))) => "err".into(),
-        Ok(Err(_)) => "err:other".into(),
+        Err(_) => Err("panic".into()),
+        Ok(Ok(spectra)) => Ok(spectra),
+        Ok(Err(sage_cloudpath::Error::IO(e))) if e.kind() == std::io::ErrorKind::InvalidData => Err("err:utf8".into()),
+        Ok(Err(sage_cloudpath::Error::IO(_))) => Err("err:io".into()),
+        Ok(Err(sage_cloudpath::Error::MGF(_))) => Err("err".into()),
+        Ok(Err(_)) => Err("err:other".into()),
     }
+}
+
+fn file_route(fid: usize, style: usize, bytes: &[u8]) -> String {
+    match file_route_raw(fid, style, bytes) {
+        Ok(spectra) => render_ok(&spectra),
+        Err(class) => class,
+    }
+}
+
+// ------------------------------------------------------------------------------------------- large files
+
+fn fnv(bytes: &[u8]) -> u64 {
+    let mut h: u64 = 0xcbf2_9ce4_8422_2325;
+    for &b in bytes {
+        h = (h ^ b as u64).wrapping_mul(0x0000_0100_0000_01b3);
+    }
+    h
+}
+
+#[derive(Clone)]
+struct Big {
+    crlf: bool,
+    nblocks: usize,
+    pad: usize,
+    a: usize,
+    b: usize,
+    pep: Vec<String>,
+    header: Vec<String>,
+    templates: Vec<Vec<String>>,
+}
+
+fn big_line(out: &mut Vec<u8>, line: &str, i: usize, pep: &[String]) {
+    for &c in line.as_bytes() {
+        match c {
+            1 => out.extend_from_slice(i.to_string().as_bytes()),
+            2 => {
+                if !pep.is_empty() {
+                    out.extend_from_slice(pep[i % pep.len()].as_bytes())
+                }
+            }
+            _ => out.push(c),
+        }
+    }
+}
+
+fn big_render(d: &Big) -> Vec<u8> {
+    let eol: &[u8] = if d.crlf { b"\r\n" } else { b"\n" };
+    let mut out = Vec::new();
+    for h in &d.header {
+        out.extend_from_slice(h.as_bytes());
+        out.extend_from_slice(eol);
+    }
+    out.push(b'#');
+    out.extend(std::iter::repeat(b'x').take(d.pad));
+    out.extend_from_slice(eol);
+    let m = d.templates.len().max(1);
+    for i in 0..d.nblocks {
+        out.extend_from_slice(b"BEGIN IONS");
+        out.extend_from_slice(eol);
+        if !d.templates.is_empty() {
+            for l in &d.templates[((i * d.a + d.b) % 1_000_003) % m] {
+                big_line(&mut out, l, i, &d.pep);
+                out.extend_from_slice(eol);
+            }
+        }
+        out.extend_from_slice(b"END IONS");
+        out.extend_from_slice(eol);
+        out.extend_from_slice(eol);
+    }
+    out
+}
+
+fn big_request(fid: usize, style: usize, d: &Big) -> String {
+    let mut o = Out::new();
+    o.raw("mgfbig").n(fid).n(style).b(d.crlf).n(d.nblocks).n(d.pad).n(d.a).n(d.b);
+    o.n(d.pep.len());
+    for t in &d.pep {
+        o.s(t);
+    }
+    o.n(d.header.len());
+    for t in &d.header {
+        o.s(t);
+    }
+    o.n(d.templates.len());
+    for t in &d.templates {
+        o.n(t.len());
+        for l in t {
+            o.s(l);
+        }
+    }
+    // token table / numeric code points from a sample: header + every template with every pepmass token
+    let mut sample = String::new();
+    for h in &d.header {
+        sample.push_str(h);
+        sample.push('\n');
+    }
+    for t in &d.templates {
+        for k in 0..d.pep.len().max(1) {
+            for l in t {
+                let mut v = Vec::new();
+                big_line(&mut v, l, k, &d.pep);
+                sample.push_str(std::str::from_utf8(&v).expect("utf8 template"));
+                sample.push('\n');
+            }
+        }
+    }
+    let tbl = token_table(&sample);
+    o.n(tbl.len());
+    for (tok, v) in &tbl {
+        o.s(tok);
+        match v {
+            Some(b) => o.n(1).n(*b),
+            None => o.n(0),
+        };
+    }
+    let mut nums: Vec<u32> = sample.chars().filter(|c| !c.is_ascii() && c.is_numeric()).map(|c| c as u32).collect();
+    nums.sort();
+    nums.dedup();
+    o.n(nums.len());
+    for c in nums {
+        o.n(c);
+    }
+    o.finish()
+}
+
+fn big_parse(t: &mut Toks) -> Option<(usize, Big)> {
+    let style = t.usize()?;
+    let crlf = t.bool()?;
+    let nblocks = t.usize()?;
+    let pad = t.usize()?;
+    let a = t.usize()?;
+    let b = t.usize()?;
+    let pep = t.list(|t| t.string())?;
+    let header = t.list(|t| t.string())?;
+    let templates = t.list(|t| t.list(|t| t.string()))?;
+    skip_tables(t)?;
+    Some((style, Big { crlf, nblocks, pad, a, b, pep, header, templates }))
+}
+
+/// compact reply for a large result: `ok n total [rec…]`
+fn big_reply(spectra: &[RawSpectrum], with_recs: bool) -> String {
+    let mut recs = Out::new();
+    let mut digests = String::new();
+    for s in spectra {
+        let mut o = Out::new();
+        render_spectrum(&mut o, s);
+        let d = fnv(o.finish().as_bytes());
+        if !digests.is_empty() {
+            digests.push(' ');
+        }
+        digests.push_str(&d.to_string());
+        if with_recs {
+            recs.n(s.file_id).s(&s.id).n(s.precursors.len());
+            for p in &s.precursors {
+                match p.charge {
+                    Some(c) => recs.n(1).n(c),
+                    None => recs.n(0),
+                };
+            }
+            match s.precursors.first().and_then(|p| p.isolation_window) {
+                None => recs.n(0),
+                Some(Tolerance::Da(lo, hi)) => recs.n(1).raw("da").n(fb(lo)).n(fb(hi)),
+                Some(Tolerance::Ppm(lo, hi)) => recs.n(1).raw("ppm").n(fb(lo)).n(fb(hi)),
+                Some(Tolerance::Pct(lo, hi)) => recs.n(1).raw("pct").n(fb(lo)).n(fb(hi)),
+            };
+            recs.n(d);
+        }
+    }
+    let mut o = Out::new();
+    o.raw("ok").n(spectra.len()).n(fnv(digests.as_bytes()));
+    let r = recs.finish();
+    if !r.is_empty() {
+        o.raw(&r);
+    }
+    o.finish()
 }
 
 pub fn exec(op: &str, t: &mut Toks) -> Option<String> {
     let fid = t.usize()?;
+    if op == "mgfbig" {
+        let (style, d) = big_parse(t)?;
+        let bytes = big_render(&d);
+        let f = match file_route_raw(fid, style, &bytes) {
+            Ok(spectra) => big_reply(&spectra, true),
+            Err(class) => class,
+        };
+        let dr = match String::from_utf8(bytes) {
+            Err(_) => "err:utf8".to_string(),
+            Ok(text) => match MgfReader::with_file_id(fid).parse(text) {
+                Ok(spectra) => big_reply(&spectra, false),
+                Err(_) => "err".to_string(),
+            },
+        };
+        return Some(format!("file {f} direct {dr}"));
+    }
     if op == "mgffile" {
         let style = t.usize()?;
         let bytes = t.bytes()?;
@@ -665,6 +872,185 @@ fn mutate(rng: &mut Rng, base: &[u8]) -> (Vec<u8>, &'static str) {
     }
 }
 
+
+// ------------------------------------------------------------------------------------------- large-file generator
+
+const BIG_HEADERS: &[&[&str]] = &[
+    &["COM=large file", "CHARGE=2+ and 3+", "TOL=10", "TOLU=ppm"],
+    &["CHARGE=3+", "TOL=0.8", "TOLU=Da", "# header comment"],
+    &["CHARGE=2+"],
+    &["TOL=5", "TOLU=ppm", "MASS=Monoisotopic"],
+    &["CHARGE=1+, 2+ and 3+", "TOLU=Da", "TOL=1.5"],
+];
+const BIG_PEP: &[&str] = &["400.25", "512.7", "983.6", "367.069682741984", "1084.9", "896.05", "623.33", "751.125", "445.12", "1200", "333.3"];
+
+fn big_template(rng: &mut Rng, kind: usize, np: usize) -> Vec<String> {
+    let mut v: Vec<String> = Vec::new();
+    let peaks = |rng: &mut Rng, v: &mut Vec<String>, with_int: bool| {
+        for _ in 0..np {
+            let m = *rng.pick(NUM_PEAKY);
+            if with_int {
+                v.push(format!("{m} {}", rng.pick(NUM_PEAKY)));
+            } else {
+                v.push(m.to_string());
+            }
+        }
+    };
+    match kind {
+        0 => {
+            v.push("TITLE=blk \u{1}".into());
+            v.push("PEPMASS=\u{2}".into());
+            v.push(format!("RTINSECONDS={}", rng.pick(NUM_PEAKY)));
+            peaks(rng, &mut v, true);
+        }
+        1 => {
+            v.push("PEPMASS=\u{2} 1000.5".into());
+            v.push("TITLE=scan=\u{1} plain".into());
+            peaks(rng, &mut v, true);
+        }
+        2 => {
+            v.push("TITLE=own charge \u{1}".into());
+            v.push("CHARGE=4+".into());
+            v.push("PEPMASS=\u{2}".into());
+            peaks(rng, &mut v, true);
+        }
+        3 => {
+            v.push("TITLE=own tol \u{1}".into());
+            v.push("PEPMASS=\u{2} 7".into());
+            v.push("TOL=0.5".into());
+            v.push("TOLU=Da".into());
+            v.push("RTINSECONDS=60".into());
+            peaks(rng, &mut v, true);
+        }
+        4 => {
+            v.push("TITLE=τίτλος \u{1} ٣".into());
+            v.push("PEPMASS=\u{2}".into());
+            peaks(rng, &mut v, false);
+        }
+        5 => {
+            // no PEPMASS: rejected block
+            v.push("TITLE=no pepmass \u{1}".into());
+            v.push("CHARGE=5+".into());
+            v.push("TOL=3".into());
+            v.push("TOLU=Da".into());
+            v.push("RTINSECONDS=600".into());
+            peaks(rng, &mut v, true);
+        }
+        6 => {
+            v.push("TITLE=two pepmass \u{1}".into());
+            v.push("PEPMASS=\u{2}".into());
+            v.push("PEPMASS=600.5 3".into());
+            v.push("CHARGE=1+".into());
+            v.push("TOLU=ppm".into());
+            peaks(rng, &mut v, true);
+        }
+        _ => {
+            v.push("  TITLE=indented \u{1}  ".into());
+            v.push("\tPEPMASS=\u{2}".into());
+            v.push("# comment in block".into());
+            let mut pk = Vec::new();
+            peaks(rng, &mut pk, true);
+            v.extend(pk.into_iter().map(|l| format!("    {l}")));
+        }
+    }
+    v
+}
+
+fn big_doc(rng: &mut Rng, target_bytes: usize, nblocks: usize, crlf: bool, force_unicode: bool) -> Big {
+    let per_block = target_bytes / nblocks.max(1);
+    let np = (per_block.saturating_sub(95) / 13).max(1);
+    // most blocks rely on the header; overrides and a rejected block are sprinkled in
+    let mut kinds: Vec<usize> = vec![0, 1, 0, 1, 0];
+    let mut extra: Vec<usize> = vec![2, 3, 4, 5, 6, 7];
+    rng.shuffle(&mut extra);
+    kinds.extend(extra.into_iter().take(2 + rng.below(4)));
+    if force_unicode && !kinds.contains(&4) {
+        kinds.push(4);
+        kinds.push(4);
+    }
+    rng.shuffle(&mut kinds);
+    let templates: Vec<Vec<String>> = kinds.iter().map(|&k| {
+        let n = (np as i64 + rng.range(-3, 3)).max(1) as usize;
+        big_template(rng, k, n)
+    }).collect();
+    let npep = 1 + rng.below(BIG_PEP.len());
+    let mut pep: Vec<String> = BIG_PEP.iter().map(|s| s.to_string()).collect();
+    rng.shuffle(&mut pep);
+    pep.truncate(npep);
+    Big {
+        crlf,
+        nblocks,
+        pad: 0,
+        a: 1 + rng.below(1000),
+        b: rng.below(1000),
+        pep,
+        header: rng.pick(BIG_HEADERS).iter().map(|s| s.to_string()).collect(),
+        templates,
+    }
+}
+
+/// choose `pad` so that byte offset `boundary` of the file falls on a chosen feature; returns the feature's tag
+fn big_align(rng: &mut Rng, d: &mut Big, boundary: usize, feature: usize) -> &'static str {
+    d.pad = 0;
+    let bytes = big_render(d);
+    if bytes.len() <= boundary {
+        d.pad = rng.below(300);
+        return "boundary:none(file-shorter)";
+    }
+    let feature = if feature == 6 && !d.crlf { 0 } else { feature % 7 };
+    let find_last = |pat: &[u8], off: usize| -> Option<usize> {
+        // last occurrence of `pat` whose position + off is <= boundary
+        let mut i = boundary.min(bytes.len() - pat.len());
+        loop {
+            if &bytes[i..i + pat.len()] == pat && i + off <= boundary {
+                return Some(i + off);
+            }
+            if i == 0 {
+                return None;
+            }
+            i -= 1;
+        }
+    };
+    let (p, tag) = match feature {
+        0 => (find_last(b"END IONS", 4), "boundary:inside-END-IONS"),
+        1 => (find_last(b"END IONS", 0), "boundary:before-END-IONS"),
+        2 => (find_last(b"BEGIN IONS", 0), "boundary:before-BEGIN-IONS"),
+        3 => (find_last(b"BEGIN IONS", 6), "boundary:inside-BEGIN-IONS"),
+        4 => (find_last("τ".as_bytes(), 1).or(find_last(b"TITLE=", 3)), "boundary:inside-utf8-char-or-TITLE"),
+        5 => (find_last(b"PEPMASS=", 8), "boundary:inside-PEPMASS-line"),
+        _ => (find_last(b"END IONS\r\n", 9), "boundary:between-CR-and-LF"),
+    };
+    match p {
+        Some(p) if p <= boundary => {
+            d.pad = boundary - p;
+            tag
+        }
+        _ => {
+            d.pad = rng.below(300);
+            "boundary:unaligned"
+        }
+    }
+}
+
+fn emit_big(rng: &mut Rng, emit: &mut dyn FnMut(Case), target: usize, nblocks: usize, boundary: usize, style: usize, crlf: bool, feature: usize, size_tag: &'static str) {
+    let crlf = crlf || feature % 7 == 6;
+    let mut d = big_doc(rng, target, nblocks, crlf, feature % 7 == 4);
+    let btag = big_align(rng, &mut d, boundary, feature);
+    let fid = rng.below(1000);
+    const STYLE_TAGS: &[&str] = &["file:.mgf", "file:.MGF", "file:.mgf.gz", "file:.MGF.GZ", "file:.mgf.Gz"];
+    let c = Case::new(big_request(fid, style, &d))
+        .tag(size_tag)
+        .tag(btag)
+        .tag(match boundary {
+            8192 | 16384 => "io-boundary:8KiB-grid",
+            65536 | 131072 => "io-boundary:64KiB-grid",
+            _ => "io-boundary:MiB-grid",
+        })
+        .tag(STYLE_TAGS[style % STYLE_TAGS.len()])
+        .tag(if crlf { "big:CRLF" } else { "big:LF" });
+    emit(c);
+}
+
 pub fn gen(rng: &mut Rng, tier: Tier, emit: &mut dyn FnMut(Case)) {
     let quick = tier == Tier::Quick;
     let none = Flags::default();
@@ -769,5 +1155,32 @@ pub fn gen(rng: &mut Rng, tier: Tier, emit: &mut dyn FnMut(Case)) {
         let (v, tag) = if rng.chance(30, 100) { mutate(rng, &base) } else { (base, "unmutated") };
         let fid = if rng.chance(50, 100) { rng.below(1000) } else { 0 };
         emit_file(fid, k % STYLES.len(), &v, &[tag]);
+    }
+    // large files through the file route (header defaults must reach every block, however the reader chunks its input)
+    let n_mid = if quick { 14 } else { 84 };
+    let f0 = rng.below(7);
+    for k in 0..n_mid {
+        let (target, nblocks, tag) = if k % 2 == 0 { (24 << 10, 45, "big:24KiB") } else { (150 << 10, 260, "big:150KiB") };
+        let boundary = if k % 2 == 0 { 8192 * (1 + rng.below(2)) } else { *rng.pick(&[8192usize, 65536, 65536, 131072]) };
+        // every alignment feature occurs in every run, at the 8 KiB grid (even k) and at the 64 KiB grid (odd k)
+        emit_big(rng, emit, target, nblocks, boundary, k % STYLES.len(), k % 3 == 1, f0 + k / 2, tag);
+    }
+    let mib = 1usize << 20;
+    if quick {
+        emit_big(rng, emit, mib + mib / 10, 2000, mib, 0, false, f0, "big:1.1MiB");
+        emit_big(rng, emit, mib + mib / 10, 2200, mib, 3, true, f0 + 3, "big:1.1MiB");
+    } else {
+        for k in 0..8 {
+            let bd = *rng.pick(&[mib, mib, 65536, 8192]);
+            emit_big(rng, emit, mib + mib / 10, 2000 + 100 * k, bd, k % STYLES.len(), k % 2 == 1, f0 + k, "big:1.1MiB");
+        }
+        for k in 0..6 {
+            let bd = *rng.pick(&[mib, 2 * mib]);
+            emit_big(rng, emit, 2 * mib + mib / 2, 4000 + 250 * k, bd, (k + 2) % STYLES.len(), k % 2 == 0, f0 + k + 1, "big:2.5MiB");
+        }
+        for k in 0..4 {
+            let bd = *rng.pick(&[mib, 2 * mib, 4 * mib]);
+            emit_big(rng, emit, 5 * mib, 7000 + 300 * k, bd, (k * 2) % STYLES.len(), k % 2 == 1, f0 + 2 * k, "big:5MiB");
+        }
     }
 }
